@@ -66,7 +66,6 @@ impl PresentExtensions {
         }
         let mut start = PRESENT_INTERNAL_PREFIX.len();
         let mut last_name = None;
-        let mut has_cr = false;
         for (pos, byte) in data
             .iter()
             .copied()
@@ -94,14 +93,12 @@ impl PresentExtensions {
                             .push(PresentExtensionPosData::from_name_and_arg(span, span));
                     }
                 }
-                if byte == CR {
-                    has_cr = true;
-                }
                 if byte == LF {
                     return Some(Self {
                         data,
                         extensions: Arc::new(extensions_args),
-                        data_start: pos + if has_cr { 2 } else { 1 },
+                        // `pos` is the index of the LF (also when the line ends with CRLF)
+                        data_start: pos + 1,
                     });
                 }
                 start = if data
